@@ -302,12 +302,30 @@ def mode_conj_keeps_bf_and_metadata(self, pdg_name, result, OLD):
 _USER_MODELS: dict = {}
 
 
+def _source_text(p):
+    """The text the parser object holds (the private attribute _dec_file; after a renaming: the one string-valued
+    attribute of the object that is not the Lark grammar)."""
+    text = getattr(p, "_dec_file", None)
+    if isinstance(text, str):
+        return text
+    cand = []
+    names = [n for k in type(p).__mro__ for n in getattr(k, "__slots__", ())] + list(getattr(p, "__dict__", {}))
+    for n in names:
+        try:
+            v = getattr(p, n)
+        except AttributeError:
+            continue
+        if isinstance(v, str) and "%import" not in v and "start:" not in v and "?line" not in v:
+            cand.append(v)
+    return cand[0] if len(cand) == 1 else None
+
+
 @_monitor("C01.parse.tables_match_reference")
 def parse_matches_reference(self, include_ccdecays):
     from . import declang as L  # noqa: PLC0415
     from . import snapshot  # noqa: PLC0415
 
-    text = getattr(self, "_dec_file", None)
+    text = _source_text(self)
     if not isinstance(text, str):
         COUNTS["C01.parse.not_observed"] += 1
         return
@@ -458,6 +476,22 @@ def structure_equals_bruteforce(self, final_states, result):
 # C14  DescriptorFormat scoping: shadow stack keyed by context-object identity
 
 SHADOW: dict = {}
+INIT_ARGS: dict = {}     # id(DescriptorFormat object) -> the two patterns its constructor was given (recorded at the boundary)
+
+
+def _record_init(real):
+    import functools  # noqa: PLC0415
+    import inspect  # noqa: PLC0415
+
+    sig = inspect.signature(real)
+
+    @functools.wraps(real)
+    def __init__(self, *a, **k):
+        real(self, *a, **k)
+        b = sig.bind(self, *a, **k)
+        INIT_ARGS[id(self)] = {"decay_pattern": b.arguments.get("decay_pattern"), "sub_decay_pattern": b.arguments.get("sub_decay_pattern")}
+
+    return __init__
 
 
 def _snap_cfg(self):
@@ -471,8 +505,12 @@ def enter_installs(self, OLD):
     from decaylanguage.utils import DescriptorFormat  # noqa: PLC0415
 
     SHADOW.setdefault(id(self), []).append(OLD.cfg)
-    if DescriptorFormat.config != self.new_config:
-        record("C14", "enter:format-not-installed", f"after __enter__ the format is {DescriptorFormat.config!r}, not {self.new_config!r}", None)
+    want = INIT_ARGS.get(id(self))
+    if want is None:
+        COUNTS["C14.enter.constructor_not_observed"] += 1
+        return
+    if dict(DescriptorFormat.config) != want:
+        record("C14", "enter:format-not-installed", f"after __enter__ the format is {DescriptorFormat.config!r}, not {want!r}", None)
 
 
 @_monitor("C14.exit.restores_entry_format")
@@ -578,8 +616,9 @@ def arm(*groups):
             _REAL["charge_conjugate_name"] = orig
             f = icontract.ensure(conj_is_involution_or_wrapped, error=ContractBroken)(orig)
             f = icontract.ensure(conj_matches_table_oracle, error=ContractBroken)(f)
-            f.cache_clear = orig.cache_clear
-            f.cache_info = orig.cache_info
+            for attr in ("cache_clear", "cache_info"):
+                if hasattr(orig, attr):
+                    setattr(f, attr, getattr(orig, attr))
             COUNTS["C04.rebound_sites"] = rebind_everywhere(orig, f)
             Y.DaughtersDict.charge_conjugate = icontract.ensure(daughters_conjugated, error=ContractBroken)(Y.DaughtersDict.charge_conjugate)
             g2 = icontract.ensure(mode_conj_keeps_bf_and_metadata, error=ContractBroken)(Y.DecayMode.charge_conjugate)
@@ -648,6 +687,7 @@ def arm(*groups):
             import decaylanguage.utils.utilities as UU  # noqa: PLC0415
 
             DF = UU.DescriptorFormat
+            DF.__init__ = _record_init(DF.__init__)
             f = icontract.ensure(enter_installs, error=ContractBroken)(DF.__enter__)
             DF.__enter__ = icontract.snapshot(_snap_cfg, name="cfg")(f)
             DF.__exit__ = icontract.ensure(exit_restores, error=ContractBroken)(DF.__exit__)
